@@ -246,4 +246,92 @@ def runCase (P : Policy) (lf : LoopForm) (max : Nat) (kinds : List IoKind) (bs :
   let (hs, n) := healthyPhase P lf max healthyCalls 0 ks c
   (os, hs, n)
 
+/-! ### connection management and health check (one node; nodes are independent)
+
+`connect_all` / `reconnect_disconnected` run `ensure_connected` (a cached client, dead or not, counts
+as connected; otherwise `Client::connect`, which fails exactly when the node refuses — that consumes a
+`refused`; any other behaviour is not consumed by a bare connect).  `disconnect_all` empties the slot.
+`health_check` is one attempt (`ensure_connected` + `call_message_with_timeout`, no retry) and
+invalidates the client after *any* error (`HealthForm`, extracted). -/
+
+inductive LifeOp where
+  | connectAll | disconnectAll | reconnect | health | call
+  deriving DecidableEq, Repr
+
+/-- Shape of `health_check` as written in the source. -/
+structure HealthForm where
+  invalidateOnError : Bool := true   -- `Err(err) => { invalidate_client(&node); … }`
+  singleAttempt : Bool := true       -- no loop around the call
+  deriving DecidableEq, Repr
+
+/-- `ensure_connected` alone: (connected?, cache, remaining behaviours). -/
+def connectStep (c : Cache) (bs : List Behaviour) : Bool × Cache × List Behaviour :=
+  match c with
+  | .none =>
+    match bs with
+    | .refused :: r => (false, .none, r)
+    | _ => (true, .live, bs)
+  | c => (true, c, bs)
+
+/-- `health_check` on one node: (reply, contacts, cache, remaining behaviours). -/
+def healthStep (P : Policy) (hf : HealthForm) (c : Cache) (bs : List Behaviour) :
+    Reply × Nat × Cache × List Behaviour :=
+  let s := step P c bs
+  let cache := match s.entry.reply with
+    | .ok => s.cache
+    | .err _ => if hf.invalidateOnError then .none else s.cache
+  (s.entry.reply, if s.entry.contact.isSome then 1 else 0, cache, s.rest)
+
+/-- Observation of one management operation. -/
+inductive LifeObs where
+  | connected (b : Bool)                 -- `connect_all`: in `connected` (else in `failed`)
+  | disconnected
+  | reconnect (r : Option Bool)          -- not attempted / reconnected / failed
+  | health (contacts : Nat) (r : Reply)
+  | call (o : CallObs)
+  deriving DecidableEq, Repr
+
+structure LifeState where
+  cache : Cache
+  rest : List Behaviour
+  kinds : List IoKind
+
+def lifeStep (P : Policy) (lf : LoopForm) (hf : HealthForm) (max : Nat) (st : LifeState) :
+    LifeOp → LifeObs × Bool × LifeState
+  | .connectAll =>
+    let (ok, c, r) := connectStep st.cache st.rest
+    (.connected ok, c.connected, { st with cache := c, rest := r })
+  | .disconnectAll => (.disconnected, false, { st with cache := .none })
+  | .reconnect =>
+    match st.cache with
+    | .none =>
+      let (ok, c, r) := connectStep .none st.rest
+      (.reconnect (some ok), c.connected, { st with cache := c, rest := r })
+    | c => (.reconnect none, c.connected, st)
+  | .health =>
+    let P' : Policy := match st.kinds with
+      | k :: _ => { P with deadKind := k }
+      | [] => P
+    let (r, n, c, rest) := healthStep P' hf st.cache st.rest
+    let ks := if st.cache = .dead then st.kinds.drop 1 else st.kinds
+    (.health n r, c.connected, ⟨c, rest, ks⟩)
+  | .call =>
+    let (r, ks) := callObs P lf max st.kinds st.cache st.rest
+    (.call (obsOf r), r.cache.connected, ⟨r.cache, r.rest, ks⟩)
+
+def lifeRun (P : Policy) (lf : LoopForm) (hf : HealthForm) (max : Nat) :
+    LifeState → List LifeOp → List (LifeObs × Bool) × LifeState
+  | st, [] => ([], st)
+  | st, op :: ops =>
+    let (o, conn, st') := lifeStep P lf hf max st op
+    let (os, st'') := lifeRun P lf hf max st' ops
+    ((o, conn) :: os, st'')
+
+/-- A lifecycle case: the operations against the script, then the healthy phase. -/
+def runLife (P : Policy) (lf : LoopForm) (hf : HealthForm) (max : Nat) (kinds : List IoKind)
+    (bs : List Behaviour) (ops : List LifeOp) : List (LifeObs × Bool) × List CallObs × Option Nat :=
+  let (os, st) := lifeRun P lf hf max ⟨.none, bs, kinds⟩ ops
+  let (hs, n) := healthyPhase P lf max healthyCalls 0 st.kinds st.cache
+  (os, hs, n)
+
 end Repe.Fleet
